@@ -449,8 +449,29 @@ class Verifier(ExprMixin, StmtMixin, CallMixin, LibMixin, SpecMixin):
             o.name = "%s/lemma-proof#%d@%s" % (qn, i + 1, name)
             o.verdict, o.backend, o.ms, o.model, o.trace = verdict, "z3-api(induction step)", secs * 1000.0, None, []
             obs.append(o)
+        trusted = ["induction scheme over the naturals (base + step imply the lemma for every n) applied by the generator"]
+        if (self.timeout_ms or 0) >= 100000:
+            # thorough tier: the permutation lemma (stated on the z3 side) is checked by Lean 4 + Mathlib
+            import subprocess
+            t1 = time.time()
+            try:
+                pr = subprocess.run(["lean", os.path.join(os.path.dirname(os.path.dirname(os.path.abspath(__file__))), "lean", "KsumPerm.lean")],
+                                    capture_output=True, text=True, timeout=3600)
+                ok = pr.returncode == 0 and "error" not in pr.stdout and "sorry" not in pr.stdout
+                out = (pr.stdout + pr.stderr).strip()[-300:]
+            except Exception as e:   # pragma: no cover
+                ok, out = False, str(e)
+            o = Obligation()
+            o.func, o.kind, o.line = qn, "lemma-proof", 0
+            o.note = "ksum_perm: Lean 4 proof lean/KsumPerm.lean (%s)" % out.replace("\n", " ")
+            o.name = "%s/lemma-proof#%d@ksum_perm[lean]" % (qn, len(obs) + 1)
+            o.verdict, o.backend, o.ms, o.model, o.trace = ("unsat" if ok else "unknown"), "lean-4.33.0+mathlib", (time.time() - t1) * 1000.0, None, []
+            obs.append(o)
+            trusted.append("correspondence between the Lean statement of ksum_perm and the z3 formula (read, not machine-checked)")
+        else:
+            trusted.append("ksum_perm (permutation invariance of keyed sums): stated; its Lean proof is checked by the thorough tier only")
         return dict(function=qn, variant=None, error=None, obligations=[o.as_dict() for o in obs], canaries=[],
-                    trusted=["induction scheme over the naturals (base + step imply the lemma for every n) applied by the generator"],
+                    trusted=trusted,
                     inlined=[], used_contracts=[], loops_cut=[], paths=0, wall_s=round(time.time() - t0, 3), source_sha="lemmas", lines=[0, 0])
 
     # ------------------------------------------------------------ verification of one function
